@@ -238,7 +238,11 @@ func genC11(r *rand.Rand) *c11Case {
 	sc := s.Script
 	if chance(r, 45) {
 		cc.hostile = true
-		switch r.IntN(13) {
+		switch r.IntN(14) {
+		case 13:
+			sc.BadEnd = pick(r, []string{"garbage", "empty", "corrupt"})
+			sc.Comp, sc.CompressEnd = pick(r, []string{"", "gzip"}), chance(r, 50)
+			cc.flavour = "bad-end-of-stream"
 		case 12:
 			hostileCompressedResponse(r, sc, pick(r, []string{"corrupt", "bomb"}), int(s.Cfg.Limit))
 			cc.flavour = "decompress-fault"
@@ -344,6 +348,9 @@ func runC11(c *Ctx, i int, r *rand.Rand) {
 	}
 	if len(e.Rec.After) > 0 || e.Built.Body.After > 0 {
 		c.Violate(i, "io-after-return", fmt.Sprintf("after ServeHTTP returned: writer %v, body reads %d\n%s", e.Rec.After, e.Built.Body.After, detail()))
+	}
+	if bo.Endless {
+		c.Violate(i, "request-body-never-ends", fmt.Sprintf("the body handed to the backend did not reach its end (%v): a handler reading to EOF never returns\n%s", bo.ReadErr, detail()))
 	}
 	if bo.Invocations > 1 || bo.Invocations+e.Unknown.Invocations > 1 {
 		c.Violate(i, "dispatched-twice", detail())
